@@ -88,7 +88,24 @@ fn run_case(rng: &mut Rng, s: &mut Sink, len: u64) {
     let st = sut.cache.stats();
     s.emit("adjust", format!("adjust {} {}", h, l), format!("ok high={} low={}{}", st.high_watermark, st.low_watermark, sut.tail()));
     let nkeys = rng.range(3, 40);
-    let keys: Vec<Vec<u8>> = (0..nkeys).map(|i| { let n = rng.below(9) as usize + 1; let mut k = rng.bytes(n); k.push(i as u8); k }).collect();
+    let mut keys: Vec<Vec<u8>> = (0..nkeys).map(|i| { let n = rng.below(9) as usize + 1; let mut k = rng.bytes(n); k.push(i as u8); k }).collect();
+    // in half of the cases the keys share a few buckets (the sweep walks a bucket while it removes from it)
+    if rng.chance(1, 2) {
+        let nb = rng.range(1, 4);
+        let targets: Vec<usize> = (0..nb).map(|_| rng.below(feoxdb::constants::CACHE_BUCKETS as u64) as usize).collect();
+        for (i, k) in keys.iter_mut().enumerate() {
+            let want = targets[i % targets.len()];
+            let base = k.clone();
+            let mut n = 0u32;
+            loop {
+                let mut cand = base.clone();
+                cand.extend_from_slice(&n.to_le_bytes());
+                if feoxdb::utils::hash::murmur3_32(&cand, 0) as usize % feoxdb::constants::CACHE_BUCKETS == want { *k = cand; break; }
+                n += 1;
+            }
+        }
+        *s.hist.entry("case-with-shared-buckets".into()).or_insert(0) += 1;
+    }
     for _ in 0..len {
         let k = rng.pick(&keys).clone();
         match rng.below(100) {
